@@ -471,3 +471,5 @@ OGG = "        num_guesses = 0\n        guess = markov_cracker.next_guess()\n   
 add('C15', 'local-seen-set-in-markov-loop', PGF, OGG, "        num_guesses = 0\n        seen = set()\n        guess = markov_cracker.next_guess()\n        while guess is not None:\n            if guess in seen:\n                guess = markov_cracker.next_guess()\n                continue\n            seen.add(guess)\n            num_guesses += 1\n", 'fire', 'C15.R10')
 LG_RET = "        raise Exception\n\n    return grammar, base_structures, ruleset_info"
 add('C17', 'base-structures-filtered-after-load', GIO, LG_RET, "        raise Exception\n\n    base_structures = [b for b in base_structures if all(i == 'M' or i[1:].isdigit() for i in b['replacements'])]\n    return grammar, base_structures, ruleset_info", 'fire', 'C17.R13')
+ERF = 'edit_rules.py'
+add('C20', 'second-filter-reads-unfiltered-text', ERF, "        grammar = edit_terminal_set(grammar, config.get('terminal_set'))", "        edited = edit_terminal_set(grammar, config.get('terminal_set'))", 'fire', 'C20.R9')
